@@ -16,6 +16,15 @@ from decimal import Decimal
 from typing import Any, Generic, Optional, SupportsFloat, SupportsIndex, TypeVar, Union
 from urllib.parse import urlsplit
 
+# Regex for a sequence of optional XPath 2.0+ comments (nested up to four levels) and
+# whitespaces, used in the look-ahead of the token patterns of functions, axes and
+# constructors: a greedy '\(\:.*\:\)' would span two comments and the code between them.
+_COMMENT = r'\(\:(?:[^:]|\:(?!\)))*\:\)'
+for _ in range(3):
+    _COMMENT = r'\(\:(?:[^:(]|\:(?!\))|\((?!\:)|%s)*\:\)' % _COMMENT
+OPTIONAL_COMMENTS = r'(?:\s*%s)*\s*' % _COMMENT
+
+
 ###
 # Common sets constants
 OCCURRENCE_INDICATORS = frozenset(('?', '*', '+'))
